@@ -1479,6 +1479,41 @@ func localBurstProbe(R *res.Result, prop string) {
 		}
 		last = uint64(t.Physical)<<18 + uint64(t.Logical)
 	}
+	// every dc-location disappears (scale-in of the last labelled members): the Global allocator goes back to its plain
+	// path. It is still the same allocator: what it answers has to stay above what it answered while dc-locations existed.
+	g1, err := am.HandleTSORequest(tso.GlobalDCLocation, 50)
+	if err != nil {
+		R.Notes = append(R.Notes, "last-dc-location probe skipped: "+err.Error())
+		return
+	}
+	for _, id := range []uint64{x.S.GetMember().ID(), 525252, 525253, 535353} {
+		x.S.GetMember().DeleteMemberDCLocationInfo(id)
+	}
+	gone := false
+	for deadline := time.Now().Add(10 * time.Second); time.Now().Before(deadline); time.Sleep(50 * time.Millisecond) {
+		am.ClusterDCLocationChecker()
+		if am.GetClusterDCLocationsNumber() == 0 {
+			gone = true
+			break
+		}
+	}
+	if !gone {
+		R.Notes = append(R.Notes, "last-dc-location probe skipped: dc-locations still known after 10 s")
+		return
+	}
+	for deadline := time.Now().Add(5 * time.Second); time.Now().Before(deadline); time.Sleep(20 * time.Millisecond) {
+		g2, err := am.HandleTSORequest(tso.GlobalDCLocation, 1)
+		if err != nil {
+			continue
+		}
+		R.Count("last-dc-location:probed")
+		if g2.Physical < g1.Physical || (g2.Physical == g1.Physical && g2.Logical <= g1.Logical) {
+			R.Violate(prop+":timestamp-went-back:last-dc-location-removed",
+				fmt.Sprintf("while dc-locations existed the Global allocator answered (%d,%d) with suffix width %d; every dc-location was removed; the same allocator then answered (%d,%d) with suffix width %d", g1.Physical, g1.Logical, g1.SuffixBits, g2.Physical, g2.Logical, g2.SuffixBits),
+				map[string]interface{}{"before": []int64{g1.Physical, g1.Logical, int64(g1.SuffixBits)}, "after": []int64{g2.Physical, g2.Logical, int64(g2.SuffixBits)}})
+		}
+		break
+	}
 }
 
 // prefill writes 1100 keys that sort before "timestamp" under root (stores, regions, rules of a populated cluster).
